@@ -1,5 +1,5 @@
 (* C08 -- well-behaved clients: each request yielded once and answered; no stall, no spin. *)
-From MH Require Import proofs.Server_proofs proofs.Impl_proofs proofs.Progress_proofs proofs.ServerRead_proofs proofs.Flush_proofs proofs.CalmHistory_proofs.
+From MH Require Import proofs.Server_proofs proofs.Impl_proofs proofs.Progress_proofs proofs.ServerRead_proofs proofs.Flush_proofs proofs.CalmHistory_proofs proofs.ServerYield_proofs.
 
 (* the interest invariant, between API calls, for every connection: what the server believes
    (state), what the connection holds (pending output) and what epoll was told (interest) agree *)
@@ -207,6 +207,57 @@ Example C08_one_byte_write :
   | _ => False
   end.
 Proof. exact one_byte_write_example. Qed.
+(* exactly once, per poll: wherever the IN event of a connection stands in the batch, the yields of that poll
+   under that connection's descriptor are exactly the requests the specification parser completes on
+   carry ++ the bytes read, in order, tagged with the connection's instance; no other event of the batch
+   yields anything under that descriptor; nothing is yielded when the bytes are rejected *)
+Theorem C08_poll_yields_exactly_once : forall BUF, (2 <= BUF)%nat -> N.of_nat BUF < U32_LIMIT ->
+  forall pre post w toks w' ys fd kk x ph,
+  Inv BUF w toks -> Calm w ->
+  Forall (evt_live w) (pre ++ EvIn fd kk :: post) -> NoDup (map ev_key (pre ++ EvIn fd kk :: post)) ->
+  handle_all BUF w (pre ++ EvIn fd kk :: post) [] = inl (w', ys) ->
+  alookup fd (w_conns w) = Some x -> CInv BUF (sc_conn x) ph ->
+  let c := sc_conn x in
+  let t := k_tosrv (client_of w (sc_client x)) in
+  let d := firstn (read_amount kk (BUF - length (c_win c)) (length t)) t in
+  yields_of fd ys =
+  match runT BUF (c_pmax c) ph (c_win c ++ d) [] with
+  | RMore _ _ outs => map (fun r => (fd, sc_gid x, r)) (c_parsed c ++ reqs_of outs (c_files c))
+  | _ => []
+  end.
+Proof. exact batch_yields_exact. Qed.
+Check ((fun fd ys => eq_refl) : forall fd ys, yields_of fd ys = filter (fun y => Nat.eqb (fst (fst y)) fd) ys).
+(* exactly once, across polls: a connection (between polls: nothing parsed and not yet yielded, no descriptors held)
+   whose client has input pending that the whole-stream parser does not reject.  Polling while the epoll
+   descriptor signals terminates, and the yields under that connection's descriptor -- whatever else was going
+   on, however the input was cut into reads, however often the connection had to write first -- are exactly
+   the requests the whole-stream parser delivers on carry ++ pending input, in order, once each, tagged with
+   the connection's instance; all the input has been consumed and the parser is where the whole-stream
+   parser stops *)
+Theorem C08_requests_yielded_exactly_once : forall BUF, (2 <= BUF)%nat -> N.of_nat BUF < U32_LIMIT ->
+  forall w toks acc fd x ph phF carryF outsF,
+  Inv BUF w toks -> Calm w -> alookup fd (w_conns w) = Some x -> CInv BUF (sc_conn x) ph ->
+  c_parsed (sc_conn x) = [] -> c_files (sc_conn x) = [] ->
+  runT BUF (c_pmax (sc_conn x)) ph (c_win (sc_conn x) ++ k_tosrv (client_of w (sc_client x))) [] = RMore phF carryF outsF ->
+  exists n, match drive BUF n w acc with
+            | DQuiet w2 ys =>
+                yields_of fd ys = yields_of fd acc ++ map (fun r => (fd, sc_gid x, r)) (reqs_of outsF []) /\
+                exists x2, alookup fd (w_conns w2) = Some x2 /\ CInv BUF (sc_conn x2) phF /\ c_win (sc_conn x2) = carryF /\
+                           sc_gid x2 = sc_gid x /\ k_tosrv (client_of w2 (sc_client x)) = []
+            | DOverflow => True
+            | DFuel => False
+            end.
+Proof. exact drive_yields_exact. Qed.
+Example C08_two_requests_example :
+  match poll 1024 wP with
+  | PYield wQ _ =>
+      match drive 1024 8 wQ [] with
+      | DQuiet _ ys => map (fun y => rl_uri (r_line (snd y))) (yields_of 1 ys) = [B"/a"; B"/b"] /\ length ys = 2%nat
+      | _ => False
+      end
+  | _ => False
+  end.
+Proof. exact two_requests_example. Qed.
 (* non-vacuity: a calm world in which the application holds a token is reachable from a client
    waiting with a request (two polls), and the response can be supplied *)
 Example C08_token_world_reachable :
@@ -235,7 +286,8 @@ Theorem C08_server_read_is_spec : forall BUF, (2 <= BUF)%nat -> N.of_nat BUF < U
   | RMore ph' carry outs =>
       CInv BUF (sc_conn y) ph' /\ c_win (sc_conn y) = carry /\
       unsent (sc_conn y) = unsent c ++ flat_map serialize (conts_of outs) /\
-      ys = map (fun r => (fd, sc_gid x, r)) (c_parsed c ++ reqs_of outs (c_files c))
+      ys = map (fun r => (fd, sc_gid x, r)) (c_parsed c ++ reqs_of outs (c_files c)) /\
+      c_parsed (sc_conn y) = [] /\ c_files (sc_conn y) = files_after outs (c_files c) /\ c_pmax (sc_conn y) = c_pmax c
   | RErr outs e =>
       CInv BUF (sc_conn y) PLine /\ c_win (sc_conn y) = [] /\
       unsent (sc_conn y) = unsent c ++ flat_map serialize (conts_of outs ++ [bad_request_response e]) /\
@@ -263,3 +315,5 @@ Print Assumptions C08_response_delivered.
 Print Assumptions C08_server_read_is_spec.
 Print Assumptions C08_flush_delivers_all.
 Print Assumptions C08_calm_histories.
+Print Assumptions C08_poll_yields_exactly_once.
+Print Assumptions C08_requests_yielded_exactly_once.
